@@ -17,6 +17,8 @@ pub enum SPart {
     Len,
     /// a custom key whose output is a line break followed by this text
     KeyNl(String),
+    /// {spinner} over the tick strings a, b, c and the final F
+    Spinner,
 }
 
 /// A "simple template": its expansion depends on the logical state only.
@@ -41,6 +43,7 @@ impl STpl {
                     SPart::Pos => t.push_str("{pos}"),
                     SPart::Len => t.push_str("{len}"),
                     SPart::KeyNl(_) => t.push_str("{verif_nl}"),
+                    SPart::Spinner => t.push_str("{spinner}"),
                 }
             }
         }
@@ -48,7 +51,7 @@ impl STpl {
     }
 
     pub fn style(&self) -> ProgressStyle {
-        let st = ProgressStyle::with_template(&self.template()).expect("simple template must parse");
+        let st = ProgressStyle::with_template(&self.template()).expect("simple template must parse").tick_strings(&["a", "b", "c", "F"]);
         match self.lines.iter().flatten().find_map(|p| if let SPart::KeyNl(t) = p { Some(t.clone()) } else { None }) {
             Some(text) => st.with_key("verif_nl", move |_: &indicatif::ProgressState, w: &mut dyn std::fmt::Write| {
                 let _ = w.write_str("\n");
@@ -77,6 +80,7 @@ impl STpl {
                         s.push('\n');
                         s.push_str(t);
                     }
+                    SPart::Spinner => s.push_str(if st.finished() { "F" } else { ["a", "b", "c"][(st.ticks % 3) as usize] }),
                 }
             }
             // every template line but the last always yields output; the last only when non-empty
@@ -105,11 +109,13 @@ pub struct BarState {
     pub tpl: STpl,
     /// the bar's tab width (TABs in template literals, message and prefix become this many blanks)
     pub tab_width: usize,
+    /// spinner ticks: tick() calls and position updates that passed the bar's own throttle
+    pub ticks: u64,
 }
 
 impl BarState {
     pub fn new(len: Option<u64>, tpl: STpl) -> Self {
-        BarState { pos: 0, len, msg: String::new(), prefix: String::new(), status: Status::InProgress, tpl, tab_width: 8 }
+        BarState { pos: 0, len, msg: String::new(), prefix: String::new(), status: Status::InProgress, tpl, tab_width: 8, ticks: 0 }
     }
     /// What a draw of this bar paints now.
     pub fn frame(&self) -> Vec<String> {
